@@ -270,7 +270,9 @@ def colossal(big=False):
     if big:
         out.append(Table(1030, 1030, [[i + 1] for i in range(1030)], 'colossal-nominal1030'))
         rows = [[j for j in range(1, 17) if j != i + 1] for i in range(16)] + [[17]]
-        out.append(Table(17, 17, rows, 'colossal-contranominal16plus1'))
+        out.append(Table(17, 17, rows, 'colossal-contranominal16plus1'))       # 65 537 concepts
+        out.append(Table(17, 17, [[j for j in range(1, 18) if j != i + 1] for i in range(17)],
+                         'colossal-contranominal17'))                            # 131 072 concepts
     return out
 
 
